@@ -28,7 +28,13 @@ func (h *harness) runBigValue() {
 			continue
 		}
 		_ = db.Put([]byte("small"), []byte("v"))
-		for _, n := range []int{limit + 1, limit, limit - 1} {
+		// quick tier: values that outgrow a small initial mapping / several doublings at once;
+		// thorough tier: the limit itself as well
+		sizes := []int{17<<20 + 5, 40 << 20, 150 << 20}
+		if h.tier == "thorough" {
+			sizes = append(sizes, limit+1, limit, limit-1)
+		}
+		for _, n := range sizes {
 			v := make([]byte, n)
 			for i := 0; i < n; i += 4093 {
 				v[i] = byte(i)
@@ -63,7 +69,11 @@ func (h *harness) runBigValue() {
 			h.stat("bigvalue")
 		}
 		// across a clean restart
-		if err := db.Close(); err == nil {
+		if h.tier != "thorough" {
+			if err := db.Close(); err != nil {
+				h.emit("concfail bigvalue close: %s", errStr(err))
+			}
+		} else if err := db.Close(); err == nil {
 			if db2, err := pogreb.Open(tmp+"/db", &pogreb.Options{FileSystem: fsys}); err == nil {
 				got, _ := db2.Get([]byte("big"))
 				rt := 0
